@@ -114,6 +114,13 @@ def extract_rows(ctx, key, self_root, rec_root, state_path, variant_slot):
                     nm = cpath(tt).split("::")[-1]
                     truth = (v == "true") if nm == "is_some" else (v != "true")
                     facts = facts | {("is_some(%s)" % a[0], truth)}
+            if cn is None and v in ("Some", "None"):
+                # a variant test of a stored Option (directly, or through an as_ref() view): the same fact as is_some()
+                pe = origin_place_expr(g, o)
+                if pe is not None:
+                    rp = r(pe)
+                    if rp.startswith("state."):
+                        facts = facts | {("is_some(%s)" % rp, v == "Some")}
             e = origin_stmt_expr(g, o)
             if e is not None and e[0] == "binop" and e[1] in ("Eq", "Ne", "Lt", "Le", "Gt", "Ge") and v in ("true", "false"):
                 a, b = r(e[2]), r(e[3])
